@@ -28,6 +28,9 @@ struct Scn {
     /// the consumer waits until everybody else is blocked before it drops the iterator; otherwise
     /// it drops right after the k-th item, with the background threads in arbitrary states
     idle: bool,
+    /// the upstream iterator reports its exact remaining length as size hint (otherwise `(0, None)`);
+    /// such scenarios are run for the finite upstream lengths only
+    exact: bool,
 }
 
 impl Scn {
@@ -35,7 +38,7 @@ impl Scn {
         4 * self.w + 2 * self.b + 8
     }
     fn json(&self) -> Value {
-        json!({"kind": format!("{:?}", self.kind), "workers": self.w, "buffer_size": self.b, "consume_before_drop": self.k, "idle_before_drop": self.idle})
+        json!({"kind": format!("{:?}", self.kind), "workers": self.w, "buffer_size": self.b, "consume_before_drop": self.k, "idle_before_drop": self.idle, "upstream_exact_size_hint": self.exact})
     }
     fn from_json(v: &Value) -> Scn {
         let kind = match v["kind"].as_str().unwrap() {
@@ -43,7 +46,7 @@ impl Scn {
             "Buffered" => Kind::Buffered,
             _ => Kind::Composite,
         };
-        Scn { kind, w: v["workers"].as_u64().unwrap() as usize, b: v["buffer_size"].as_u64().unwrap() as usize, k: v["consume_before_drop"].as_u64().unwrap() as usize, idle: v["idle_before_drop"].as_bool().unwrap_or(true) }
+        Scn { kind, w: v["workers"].as_u64().unwrap() as usize, b: v["buffer_size"].as_u64().unwrap() as usize, k: v["consume_before_drop"].as_u64().unwrap() as usize, idle: v["idle_before_drop"].as_bool().unwrap_or(true), exact: v["upstream_exact_size_hint"].as_bool().unwrap_or(false) }
     }
     fn threads(&self) -> Vec<(ThreadKind, usize)> {
         let mut t = vec![];
@@ -61,6 +64,7 @@ struct Up {
     n: usize,
     i: usize,
     pulled: Arc<AtomicUsize>,
+    exact: bool,
 }
 
 impl Iterator for Up {
@@ -72,6 +76,13 @@ impl Iterator for Up {
             Some(self.i - 1)
         } else {
             None
+        }
+    }
+    fn size_hint(&self) -> (usize, Option<usize>) {
+        if self.exact {
+            (self.n - self.i, Some(self.n - self.i))
+        } else {
+            (0, None)
         }
     }
 }
@@ -96,7 +107,7 @@ struct Outcome {
 }
 
 fn build(scn: Scn, n: usize, pulled: Arc<AtomicUsize>, panic_at: Option<usize>) -> Box<dyn Iterator<Item = usize> + Send> {
-    let up = Up { n, i: 0, pulled };
+    let up = Up { n, i: 0, pulled, exact: scn.exact };
     let f: Pipeline<usize, usize> = Arc::new(move |x: usize| {
         if Some(x) == panic_at {
             panic!("processing function fails on item {x}");
@@ -269,7 +280,7 @@ struct Unit {
 fn units(run: &Run) -> Vec<Unit> {
     let q = run.quick();
     let mut u = vec![];
-    let mut add = |kind: Kind, w: usize, b: usize, k: usize, idle: bool, bound: Option<usize>| u.push(Unit { scn: Scn { kind, w, b, k, idle }, bound });
+    let mut add = |kind: Kind, w: usize, b: usize, k: usize, idle: bool, bound: Option<usize>| u.push(Unit { scn: Scn { kind, w, b, k, idle, exact: false }, bound });
     let kmax = if q { 2 } else { 3 };
     // explicit-state search, consumer idles before the drop
     for k in 0..=kmax {
@@ -320,6 +331,15 @@ fn units(run: &Run) -> Vec<Unit> {
             }
         }
     }
+    // upstreams that announce their exact length (the lookahead must still not depend on it)
+    for k in 0..=1usize {
+        u.push(Unit { scn: Scn { kind: Kind::Buffered, w: 0, b: 1, k, idle: true, exact: true }, bound: None });
+        u.push(Unit { scn: Scn { kind: Kind::Pipe, w: 2, b: 0, k, idle: true, exact: true }, bound: None });
+        if !q || k == 0 {
+            u.push(Unit { scn: Scn { kind: Kind::Buffered, w: 0, b: 2, k, idle: true, exact: true }, bound: None });
+            u.push(Unit { scn: Scn { kind: Kind::Composite, w: 2, b: 1, k, idle: true, exact: true }, bound: None });
+        }
+    }
     u
 }
 
@@ -360,7 +380,7 @@ const HISTORIES: [&str; 4] = ["none", "earlier pipe", "earlier pipe, then train_
 
 fn run_history(h: usize, log: &std::path::Path) {
     if h >= 1 {
-        let it = build(Scn { kind: Kind::Pipe, w: 2, b: 0, k: 0, idle: true }, 2, Arc::new(AtomicUsize::new(0)), None);
+        let it = build(Scn { kind: Kind::Pipe, w: 2, b: 0, k: 0, idle: true, exact: false }, 2, Arc::new(AtomicUsize::new(0)), None);
         if it.count() != 2 {
             std::process::exit(5);
         }
@@ -517,7 +537,7 @@ fn main() {
         let mut v = vec![];
         for w in 1..=2usize {
             for p in 0..=2usize {
-                v.push((Scn { kind: Kind::Pipe, w, b: 0, k: 0, idle: true }, 3usize, p, 0usize, 1usize));
+                v.push((Scn { kind: Kind::Pipe, w, b: 0, k: 0, idle: true, exact: false }, 3usize, p, 0usize, 1usize));
             }
         }
         // from non-initial process states (the panic hook is global): quick the default schedule and
@@ -525,17 +545,17 @@ fn main() {
         for h in 1..HISTORIES.len() {
             for p in 0..=2usize {
                 if p == 1 || !run.quick() {
-                    v.push((Scn { kind: Kind::Pipe, w: 2, b: 0, k: 0, idle: true }, 3usize, p, h, 1usize));
+                    v.push((Scn { kind: Kind::Pipe, w: 2, b: 0, k: 0, idle: true, exact: false }, 3usize, p, h, 1usize));
                 }
             }
         }
         if !run.quick() {
             for p in 0..=2usize {
-                v.push((Scn { kind: Kind::Pipe, w: 3, b: 0, k: 0, idle: true }, 3usize, p, 0, 1));
-                v.push((Scn { kind: Kind::Composite, w: 2, b: 1, k: 0, idle: true }, 3usize, p, 0, 1));
+                v.push((Scn { kind: Kind::Pipe, w: 3, b: 0, k: 0, idle: true, exact: false }, 3usize, p, 0, 1));
+                v.push((Scn { kind: Kind::Composite, w: 2, b: 1, k: 0, idle: true, exact: false }, 3usize, p, 0, 1));
             }
             for h in 1..HISTORIES.len() {
-                v.push((Scn { kind: Kind::Composite, w: 2, b: 1, k: 0, idle: true }, 3usize, 1, h, 1));
+                v.push((Scn { kind: Kind::Composite, w: 2, b: 1, k: 0, idle: true, exact: false }, 3usize, 1, h, 1));
             }
         }
         v
@@ -565,7 +585,7 @@ fn main() {
         let mut results = vec![];
         let mut failed = false;
         let mut info = vec![];
-        for n in [l, 2 * l, 1_000_000_000usize] {
+        for n in [l, 2 * l, 1_000_000_000usize].into_iter().filter(|n| !scn.exact || *n < 1_000_000_000) {
             let e = explore(&mut run, scn, n, u.bound);
             run.count_n("states", e.stats.states);
             run.count_n("transitions", e.stats.transitions);
